@@ -104,6 +104,9 @@ struct Params {
     /// precede the calls with a `Properties.Set` whose `&mut self` setter yields this many times
     /// (0 = no Set): something else then holds / waits for the interface's write lock
     set_yields: u32,
+    /// register BOTH interfaces (the spawn=false one and its spawning twin) on the same object
+    /// path; the calls still go to the one `spawn` selects
+    both: bool,
 }
 
 fn scenario(p: Params) -> ExecResult {
@@ -114,13 +117,20 @@ fn scenario(p: Params) -> ExecResult {
     let log: Log = Default::default();
     let l2 = log.clone();
     let spawn = p.spawn;
+    let both = p.both;
     let conn = w
         .complete("build", async move {
             let b = Builder::authenticated_socket(sock, GUID)
                 .unwrap()
                 .p2p()
                 .internal_executor(false);
-            let b = if spawn {
+            let b = if both {
+                // the twin gets its own log: only the addressed interface's handlers are judged
+                b.serve_at("/s", Spawning(if spawn { l2.clone() } else { Default::default() }))
+                    .unwrap()
+                    .serve_at("/s", Serial(if spawn { Default::default() } else { l2 }))
+                    .unwrap()
+            } else if spawn {
                 b.serve_at("/s", Spawning(l2)).unwrap()
             } else {
                 b.serve_at("/s", Serial(l2)).unwrap()
@@ -230,6 +240,7 @@ pub fn main(args: &Args) -> i32 {
                 muts: [0, 1, 2].map(|i| m.get(i).and_then(|v| v.as_bool()).unwrap_or(false)),
                 burst: j["burst"].as_bool().unwrap_or(true),
                 set_yields: j["set_yields"].as_u64().unwrap_or(0) as u32,
+                both: j["both"].as_bool().unwrap_or(false),
             };
             Some(Box::new(move || scenario(p)))
         });
@@ -245,12 +256,18 @@ pub fn main(args: &Args) -> i32 {
                     if !quick || (yn != "y012" || !burst) {
                         scenarios.push((
                             format!("{}-{yn}-{mn}-{}", if spawn { "spawn" } else { "nospawn" }, if burst { "burst" } else { "trickle" }),
-                            Params { spawn, yields, muts, burst, set_yields: 0 },
+                            Params { spawn, yields, muts, burst, set_yields: 0, both: false },
                         ));
+                        if (yn == "y210" && mn == "ref" && burst) || (yn == "y111" && mn == "mixed" && !burst) {
+                            scenarios.push((
+                                format!("{}-{yn}-{mn}-{}-two-interfaces-on-the-path", if spawn { "spawn" } else { "nospawn" }, if burst { "burst" } else { "trickle" }),
+                                Params { spawn, yields, muts, burst, set_yields: 0, both: true },
+                            ));
+                        }
                         if !spawn && mn == "ref" {
                             scenarios.push((
                                 format!("nospawn-{yn}-{mn}-{}-setter-in-flight", if burst { "burst" } else { "trickle" }),
-                                Params { spawn, yields, muts, burst, set_yields: 2 },
+                                Params { spawn, yields, muts, burst, set_yields: 2, both: false },
                             ));
                         }
                     }
@@ -268,7 +285,7 @@ pub fn main(args: &Args) -> i32 {
             &report,
             &totals,
             &name,
-            json!({"spawn": p.spawn, "yields": p.yields, "muts": p.muts, "burst": p.burst, "set_yields": p.set_yields}),
+            json!({"spawn": p.spawn, "yields": p.yields, "muts": p.muts, "burst": p.burst, "set_yields": p.set_yields, "both": p.both}),
             &plan,
             move || scenario(p),
         );
